@@ -60,6 +60,8 @@ def generate(rng, tier):
                 extra.append(["mesh", "level"])
             if extra:
                 case["sortby_extra"] = {"entries": extra, "before": rng.random() < 0.7}
+    if rng.random() < 0.25:
+        case["nout_arg"] = "minus1"  # the output is opened as "the last one" (-1)
     if p["part"] is not None and rng.random() < 0.3:
         # only some of the particle variables are asked for (as a list, or the others switched off one by one): the
         # records of the others are skipped, whatever their on-disk type
@@ -93,6 +95,9 @@ def execute(case, stats):
     viol = []
     res = {"violations": viol, "nontrivial": False}
     p = case["world"]
+    if case.get("nout_arg") == "minus1":
+        p = dict(p, siblings=[s for s in p.get("siblings", []) if s < p["nout"]])
+        stats.inc("probe.opened_as_the_last_output")
 
     def V(cls, clause, detail):
         viol.append({"class": cls, "clause": clause, "key": {"class": cls, "clause": clause}, "detail": detail})
@@ -100,6 +105,8 @@ def execute(case, stats):
     with Disk(p) as disk:
         w = disk.world
         kw = {}
+        if case.get("nout_arg") == "minus1":
+            kw["nout"] = -1
         if case["sortby"]:
             kw["sortby"] = {"part": case["sortby"]}
             sx = case.get("sortby_extra")
@@ -283,7 +290,7 @@ def measure(case):
     ncol = len(p["part"]["columns"]) if p["part"] else 0
     ns = (p["sink"]["nsink"] + len(p["sink"]["columns"])) if p["sink"] else 0
     return (p["ncpu"], npart, ncol, ns, p["levelmax"], p["ndim"], int(case["sortby"] is not None), len(p["hydro_vars"]), p["nboundary"],
-            int(p["units"] != [1.0, 1.0, 1.0]), p["maxcells"], int(bool(p["grav"])) + int(bool(p["rt_vars"])), int(bool(case.get("warm"))) + int(bool(case.get("reload"))) + int(bool(case.get("part_select"))) + int(bool(case.get("sortby_extra"))))
+            int(p["units"] != [1.0, 1.0, 1.0]), p["maxcells"], int(bool(p["grav"])) + int(bool(p["rt_vars"])), int(bool(case.get("warm"))) + int(bool(case.get("reload"))) + int(bool(case.get("part_select"))) + int(bool(case.get("sortby_extra"))) + int(bool(case.get("nout_arg"))))
 
 
 def reductions(case, viol):
@@ -299,6 +306,10 @@ def reductions(case, viol):
     if case.get("sortby_extra"):
         c = dict(case)
         del c["sortby_extra"]
+        yield c
+    if case.get("nout_arg"):
+        c = dict(case)
+        del c["nout_arg"]
         yield c
     for q in world_reductions(p):
         # keep the part/sink population that the violation is about
